@@ -235,9 +235,15 @@ std::optional<sqf::runtime::fileio::pathinfo> sqf::fileio::impl_default::get_inf
             if (rootEnd == phys.end() && !std::equal(phys.begin(), phys.end(), toFindPath.begin(), toFindPath.end()))
             {
                 log(logmessage::fileio::ResolvePhysicalMatched(current.physical, current.virtual_, phys.string()));
-                toFindPath = it->virtual_full + "/" + toFindPath.string().substr(phys.string().size() + 1);
-                toFindPath = toFindPath.lexically_normal();
-                auto toFindString = toFindPath.string();
+                // The elements of the path below the matched root
+                std::filesystem::path remainder;
+                for (auto element = std::get<1>(pair); element != toFindPath.end(); ++element)
+                {
+                    remainder /= *element;
+                }
+                std::filesystem::path toFindVirtual = it->virtual_full + "/" + remainder.string();
+                toFindVirtual = toFindVirtual.lexically_normal();
+                auto toFindString = toFindVirtual.string();
                 std::replace(toFindString.begin(), toFindString.end(), '\\', '/');
                 auto res = get_info_virtual(toFindString, current);
                 if (res.has_value())
